@@ -152,8 +152,9 @@ func (w *World) ruleCgoExtents(rule string) {
 				// hasher output under the Size() guard (assumption A-Hasher)
 				if cc, isCall := stripConv(base).(*ssa.Call); isCall && cc.Call.IsInvoke() && cc.Call.Method.Name() == "ComputeHash" {
 					guard := false
+					hv := render(cc.Call.Value)
 					for _, f := range w.factsAt(c) {
-						if strings.HasPrefix(f.Expr, "checkBLSHasher(") && strings.HasSuffix(f.Expr, "== nil") {
+						if strings.HasPrefix(f.Expr, hv+".Size() == ") {
 							guard = true
 						}
 					}
@@ -433,6 +434,38 @@ func (w *World) ruleUntrustedInts(rule string) {
 	if d := w.dkg(rule); d != nil {
 		w.ruleRangeBeforeUse(rule, d)
 	}
+	// (d) fixed-size arrays indexed by a computed value: the index interval must lie inside the array
+	//     (arrays have a static length, so this is decidable from intervals alone)
+	narr := 0
+	for _, fn := range w.srcFuncs(rootPath) {
+		if isTestFile(w, fn.Pos()) {
+			continue
+		}
+		instrs(fn, func(ins ssa.Instruction) {
+			var idx, cont ssa.Value
+			switch x := ins.(type) {
+			case *ssa.IndexAddr:
+				idx, cont = x.Index, x.X
+			case *ssa.Index:
+				idx, cont = x.Index, x.X
+			default:
+				return
+			}
+			arr, isArr := deref(cont.Type()).Underlying().(*types.Array)
+			if !isArr {
+				return
+			}
+			if _, isC := constOf(idx); isC {
+				return
+			}
+			narr++
+			lo, hi, ok := w.intBound(idx, ins)
+			w.check(ok && lo >= 0 && hi < arr.Len(), rule, fmt.Sprintf("%s/array-index:%s", fnKey(fn), shortCond(render(cont))), ins.Pos(),
+				fmt.Sprintf("index in [%d,%d] within the %d-element array", lo, hi, arr.Len()),
+				fmt.Sprintf("array of %d elements is indexed by `%s`, whose value can be %d..%d: out-of-range panic for some inputs", arr.Len(), shortCond(render(idx)), lo, hi), factStrings(w.factsAt(ins))...)
+		})
+	}
+	w.stat("computed_array_index_sites", narr)
 }
 
 func dependsOnParam(v ssa.Value, p *ssa.Parameter, d int) bool {
